@@ -33,7 +33,7 @@ func init() {
 	}})
 }
 
-var c06Bases = []string{"plain", "with space", "my[1]", "open[bracket", "star*name", "q?mark", "back\\slash", "a.b.c", "[x]-y z*", "vol00+01", "tab\tname", "{brace}", "UPPER.PAR2x", "-dash", "ünï"}
+var c06Bases = []string{"data", "backup", "set2", "extra.", "par2", "plain", "with space", "my[1]", "open[bracket", "star*name", "q?mark", "back\\slash", "a.b.c", "[x]-y z*", "vol00+01", "tab\tname", "{brace}", "UPPER.PAR2x", "-dash", "ünï"}
 var c06VolNames = []string{"vol00+01", "vol0+1", "recovery 1", "[a]", "x*y", "q?", "b\\c", "vol01+02", "part.two", "vol000+100", "..", "z", "vol3+4 (copy)", "{1}", "ä"}
 var c06Fixed = []string{"glob-base", "volume-without-main", "dup-main-in-volume"}
 
